@@ -35,7 +35,7 @@ TEXTS = {
   "note": "hang = wait-for cycle or virtual-time budget (deterministic), interface fully answering or fully silent; yaml parsing itself (libyaml) is trusted",
  },
  "C14": {
-  "technique": "property-based testing (rapidcheck): generated valid configurations (reference printer) and single-fault mutants of the 25 rejection classes; oracle = reference configuration semantics vs return value and all enumeration getters",
+  "technique": "property-based testing (rapidcheck): generated valid configurations (reference printer) and single-fault mutants of the 26 rejection classes; oracle = reference configuration semantics vs return value and all enumeration getters",
   "level": "exploration: valid configurations over the documented layout must be accepted and every enumeration getter (boards, accessories with aspects, peripherals, segments, reversers, boosters, track outputs, trains, functions, features, unique ids, initial snapshot) must equal the reference; each single fault of the statement's list must make start return 1 and stop cleanly",
   "note": "reference semantics in harness/config.cpp written from the example configurations and the statement; getter results compared as multisets (order not asserted)",
  },
@@ -80,7 +80,7 @@ TEXTS = {
   "note": "no reference model: the invariant couples the getters with each other; one decoder is listed at most once per address list (a detector never reports it twice); interleavings at lock / sleep granularity",
  },
  "C17": {
-  "technique": "property-based testing (rapidcheck) with sanitizer oracles: generated configurations, state histories and getter call lists over all 44 public getters x {known, foreign, unknown, NULL} ids; every result is rendered field by field, kept alive across further state changes and bidib_stop, re-rendered and freed once under AddressSanitizer; the same generator runs in an uninstrumented build under Valgrind Memcheck with a definedness client request on every field; snapshot-vs-single-getter equality over all entities",
+  "technique": "property-based testing (rapidcheck) with sanitizer oracles: generated configurations, state histories and getter call lists over all 47 public getters x {known, foreign, unknown, NULL} ids; every result is rendered field by field, kept alive across further state changes and bidib_stop, re-rendered and freed once under AddressSanitizer; the same generator runs in an uninstrumented build under Valgrind Memcheck with a definedness client request on every field; snapshot-vs-single-getter equality over all entities",
   "level": "exploration: (a) ASan/LSan: no use-after-free, double free or invalid free, results unchanged after later messages and after stop; (b) Memcheck: no uninitialised field in any result incl. everything it points to, for known and unknown ids; (c) bidib_get_state equals the single-entity getter for every point, signal, peripheral, segment, reverser, train, booster and track output",
   "note": "definedness is decided by Valgrind's bit-precise tracking, 30x slower than the ASan part and therefore run with fewer cases; fields are visited one by one, padding is never inspected",
   "engine": "vfprop",
@@ -92,7 +92,7 @@ TEXTS = {
  },
  "C11": {
   "technique": "property-based testing (rapidcheck) with an interposed lock layer as oracle: per case the complete product of all public calls x argument classes, all uplink type codes on the receiver thread, rejected starts, or 2-4 threads of generated calls under a generated schedule; the objcopy-redirected pthread layer checks held-sets at every return and quiescent point, unlock discipline, wait-for cycles, virtual-time budget; the lock-order graph is checked for cycles per case and over the union of all cases of the run",
-  "level": "exploration: 44 getters x 4 argument classes, 15 high-level setter/admin calls x 4 classes, 72 low-level senders in/out of range, flush and the queue readers are executed completely in every enumeration case; 25 rejection classes for start+stop; concurrent schedules with preemption at every lock operation; evidence lists every lock-order edge observed",
+  "level": "exploration: 47 getters x 4 argument classes, 15 high-level setter/admin calls x 4 classes, 72 low-level senders in/out of range, flush and the queue readers are executed completely in every enumeration case; 26 rejection classes for start+stop; concurrent schedules with preemption at every lock operation; evidence lists every lock-order edge observed",
   "note": "the order graph treats an rwlock as one node regardless of mode; recursive read acquisition by one thread is reported as information (legal with glibc's reader-preferring default, which the lock model mirrors); absence of a cycle in the observed graph is not a proof for paths never executed",
  },
  "C10": {
